@@ -898,7 +898,10 @@ func (s *Subscription) reaccess(t *rescache.Throttle) {
 	}
 
 	if s.queueFlag != 0 {
+		// The access request is deferred until the events are unqueued, but the
+		// previous access response is no longer valid for new requests.
 		s.flags |= flagReaccess
+		s.access = nil
 		return
 	}
 
